@@ -48,6 +48,42 @@ def random_sentence(rng, depth=None):
     return tgt, e
 
 
+def chain_sentence(rng):
+    """A long FLAT chain: 2..40 terms joined by + and - (or by one operator only), each term a chain of
+    1..4 factors joined by *; the tree it must parse to is the left fold (operators of equal precedence
+    associate to the left), however long the chain is."""
+    names = ["b", "c", "D", "e2", "Tt", "f", "g"]
+    idx = ["i", "j", "k"]
+    orders = {n: rng.choice([0, 1, 2]) for n in names}
+
+    def leaf():
+        if rng.random() < 0.2:
+            return ("n", rng.choice(LITS))
+        n = rng.choice(names)
+        return ("t", n, tuple(rng.sample(idx, orders[n])))
+
+    n_terms = rng.choice([2, 3, 5, 8, 9, 10, 12, 16, 17, 24, 33, 40])
+    style = rng.choice(["+", "-", "mixed", "mixed", "*"])
+    if style == "*":
+        e = leaf()
+        for _ in range(n_terms - 1):
+            e = ("*", e, leaf())
+    else:
+        def term():
+            t = leaf()
+            for _ in range(rng.choice([0, 0, 0, 1, 2, 3])):
+                t = ("*", t, leaf())
+            return t
+
+        e = term()
+        for _ in range(n_terms - 1):
+            op = style if style in "+-" else rng.choice("+-")
+            e = (op, e, term())
+    used = gen.indexes_of(e)
+    tgt = ("t", "a", tuple(rng.sample(used, rng.randint(0, min(2, len(used))))))
+    return tgt, e
+
+
 def decorate(rng, e):
     """Text of a tree with random redundant parentheses and spaces (must parse to the same tree)."""
     k = e[0]
@@ -210,7 +246,11 @@ def shard(rec, tier, index, n_shards):
 
     # (2)+(3) sentences
     for k in range(n_sent):
-        tgt, e = random_sentence(rng)
+        if k % 8 == 3:
+            tgt, e = chain_sentence(rng)
+            rec.count("long_flat_chains")
+        else:
+            tgt, e = random_sentence(rng)
         rhs = decorate(rng, e)
         text = f"{gen.show(tgt)} = {rhs}"
         r = total(rec, parse_assignment, text, "assignment")
